@@ -4,9 +4,12 @@
   A plain text node whose range lies on one line selects exactly its own text from the source …"
 
   Proved here, for ALL inputs of the modelled functions:
-    * `translate_total`, `translate_affine`, `translate_mono` (+ `translate_mono_virtual` for tables
-      with the virtual-space entries `get_lines` emits for a split tab, and `translate_not_mono_inside_virtual`,
-      the witness that the restriction is needed) — `get_source_pos_for`;
+    * `translate_total`, `translate_segment`, `translate_affine`, `translate_mono`, `translate_le_next`
+      and `translate_mono_all` (monotone on every table `get_lines` makes, the virtual-space entries of a
+      split tab included — the clamp of `fix:` "positions inside the virtual spaces of a split tab");
+      `getSourcePosFor_eq_raw(_at)`: where the clamp is inactive the function is the affine one of the
+      pre-fix code (`getSourcePosForRaw`), for which `translateRaw_not_mono_inside_virtual` records the
+      defect — `get_source_pos_for`;
     * `pop_range`, `pop_faithful`, `text_pop_total`  — `trailing_text_pop`;
     * `push_range`, `push_faithful`, `text_push_total` — `trailing_text_push`;
     * `join_split`, `join_run`, `hull_range`, `hull_content`, `join_ordered` (= `join_ranges`)
@@ -87,23 +90,76 @@ theorem lineOf_spec (m : Srcmap) (hm : WFMap m) (pos : Nat) :
       have := h2 j hj' (by omega)
       omega
 
-theorem getSourcePosFor_of_line (m : Srcmap) (pos i k v : Nat) (h1 : lineOf m pos = .ok i)
-    (h2 : m[i]? = some (k, v)) (h3 : k ≤ pos) : getSourcePosFor m pos = .ok (v + (pos - k)) := by
-  unfold getSourcePosFor
+theorem getSourcePosForRaw_of_line (m : Srcmap) (pos i k v : Nat) (h1 : lineOf m pos = .ok i)
+    (h2 : m[i]? = some (k, v)) (h3 : k ≤ pos) : getSourcePosForRaw m pos = .ok (v + (pos - k)) := by
+  unfold getSourcePosForRaw
   rw [h1]; simp only [h2]
   rw [if_neg (by omega)]
+
+/-- the value of the clamped translation in terms of the entry the bisection selects and the next one -/
+def clampNext (m : Srcmap) (i x : Nat) : Nat :=
+  match m[i + 1]? with
+  | some (_, v') => min x v'
+  | none => x
+
+theorem clampNext_le (m : Srcmap) (i x : Nat) : clampNext m i x ≤ x := by
+  unfold clampNext; split <;> omega
+
+theorem clampNext_mono (m : Srcmap) (i x y : Nat) (h : x ≤ y) : clampNext m i x ≤ clampNext m i y := by
+  unfold clampNext; split <;> omega
+
+theorem clampNext_eq (m : Srcmap) (i x : Nat) (h : ∀ k' v', m[i + 1]? = some (k', v') → x ≤ v') :
+    clampNext m i x = x := by
+  unfold clampNext
+  split
+  · next k' v' hn => have := h k' v' hn; omega
+  · rfl
+
+theorem clampNext_le_next (m : Srcmap) (i x k' v' : Nat) (h : m[i + 1]? = some (k', v')) :
+    clampNext m i x ≤ v' := by
+  unfold clampNext; rw [h]; simp only; omega
+
+theorem clampNext_ge (m : Srcmap) (i x lo : Nat) (hx : lo ≤ x)
+    (h : ∀ k' v', m[i + 1]? = some (k', v') → lo ≤ v') : lo ≤ clampNext m i x := by
+  unfold clampNext
+  split
+  · next k' v' hn => have := h k' v' hn; omega
+  · exact hx
+
+/-- the clamped function, exactly: the affine offset, cut at the next entry's source offset -/
+theorem getSourcePosFor_of_line_clamp (m : Srcmap) (pos i k v : Nat) (h1 : lineOf m pos = .ok i)
+    (h2 : m[i]? = some (k, v)) (h3 : k ≤ pos) :
+    getSourcePosFor m pos = .ok (clampNext m i (v + (pos - k))) := by
+  unfold getSourcePosFor clampNext
+  rw [h1]; simp only [h2]
+  rw [if_neg (by omega)]
+  cases m[i + 1]? with
+  | none => rfl
+  | some kv => rfl
+
+/-- … and the affine offset itself when the clamp is inactive at `pos` -/
+theorem getSourcePosFor_of_line (m : Srcmap) (pos i k v : Nat) (h1 : lineOf m pos = .ok i)
+    (h2 : m[i]? = some (k, v)) (h3 : k ≤ pos)
+    (hcl : ∀ k' v', m[i + 1]? = some (k', v') → v + (pos - k) ≤ v') :
+    getSourcePosFor m pos = .ok (v + (pos - k)) := by
+  rw [getSourcePosFor_of_line_clamp m pos i k v h1 h2 h3, clampNext_eq _ _ _ hcl]
 
 /-- **C05 / translate_total.**  On a well-formed table `get_source_pos_for` never panics, for every
     position (also beyond the end of the inline text). -/
 theorem translate_total (m : Srcmap) (hm : WFMap m) (pos : Nat) :
     ∃ x, getSourcePosFor m pos = .ok x := by
   obtain ⟨i, k, v, h1, h2, h3, _⟩ := lineOf_spec m hm pos
-  exact ⟨_, getSourcePosFor_of_line m pos i k v h1 h2 h3⟩
+  exact ⟨_, getSourcePosFor_of_line_clamp m pos i k v h1 h2 h3⟩
 
-/-- the answer is determined by the entry `(k, v)` whose segment `[k, next key)` contains `pos` -/
-theorem translate_segment (m : Srcmap) (hm : WFMap m) (pos i k v : Nat) (hi : m[i]? = some (k, v))
+theorem translateRaw_total (m : Srcmap) (hm : WFMap m) (pos : Nat) :
+    ∃ x, getSourcePosForRaw m pos = .ok x := by
+  obtain ⟨i, k, v, h1, h2, h3, _⟩ := lineOf_spec m hm pos
+  exact ⟨_, getSourcePosForRaw_of_line m pos i k v h1 h2 h3⟩
+
+/-- the entry `(k, v)` whose segment `[k, next key)` contains `pos` is the one the bisection selects -/
+theorem lineOf_segment (m : Srcmap) (hm : WFMap m) (pos i k v : Nat) (hi : m[i]? = some (k, v))
     (hk : k ≤ pos) (hnext : ∀ k' v', m[i + 1]? = some (k', v') → pos < k') :
-    getSourcePosFor m pos = .ok (v + (pos - k)) := by
+    lineOf m pos = .ok i := by
   obtain ⟨i0, k0, v0, h1, h2, h3, h4⟩ := lineOf_spec m hm pos
   have : i0 = i := by
     rcases Nat.lt_trichotomy i0 i with hlt | heq | hgt
@@ -117,19 +173,7 @@ theorem translate_segment (m : Srcmap) (hm : WFMap m) (pos i k v : Nat) (hi : m[
       have b := sorted_mono hm.sorted hj1 hj0 (by omega)
       omega
   subst this
-  rw [hi] at h2
-  simp only [Option.some.injEq, Prod.mk.injEq] at h2
-  obtain ⟨rfl, rfl⟩ := h2
-  exact getSourcePosFor_of_line m pos i0 k v h1 hi h3
-
-/-- **C05 / translate_affine.**  Inside one line (between two consecutive keys, or after the last key)
-    the translation is a shift: `tr (k + d) = v + d`. -/
-theorem translate_affine (m : Srcmap) (hm : WFMap m) (i k v d : Nat) (hi : m[i]? = some (k, v))
-    (hnext : ∀ k' v', m[i + 1]? = some (k', v') → k + d < k') :
-    getSourcePosFor m (k + d) = .ok (v + d) := by
-  have := translate_segment m hm (k + d) i k v hi (by omega) hnext
-  rw [this]
-  congr 2; omega
+  exact h1
 
 /-- what `get_lines` guarantees for two consecutive entries `(k1,v1)`, `(k2,v2)`: either the second line
     starts in the source at or after the end of the first (`v1 + (k2 − k1) ≤ v2`: the `k2 − k1` inline bytes
@@ -143,10 +187,136 @@ def MonoMapV (m : Srcmap) : Prop :=
 def MonoMap (m : Srcmap) : Prop :=
   ∀ i k1 v1 k2 v2, m[i]? = some (k1, v1) → m[i + 1]? = some (k2, v2) → v1 + (k2 - k1) ≤ v2
 
+theorem MonoMap.toV {m : Srcmap} (h : MonoMap m) : MonoMapV m :=
+  fun i k1 v1 k2 v2 a b => Or.inl (h i k1 v1 k2 v2 a b)
+
 /-- `pos` is not strictly inside a virtual-space segment -/
 def NotInsideVirtual (m : Srcmap) (pos : Nat) : Prop :=
   ∀ i k1 v1 k2 v2, m[i]? = some (k1, v1) → m[i + 1]? = some (k2, v2) → k1 ≤ pos → pos < k2 →
     v1 + (k2 - k1) ≤ v2 ∨ pos = k1
+
+/-- the clamp is inactive at `pos`: the affine offset of `pos` in its own segment does not pass the
+    source offset of the next entry.  (`MonoMap m` gives it at every position, `MonoMapV m` at every
+    position that is not strictly inside a virtual segment.) -/
+def ClampFree (m : Srcmap) (pos : Nat) : Prop :=
+  ∀ i k1 v1 k2 v2, m[i]? = some (k1, v1) → m[i + 1]? = some (k2, v2) → k1 ≤ pos → pos < k2 →
+    v1 + (pos - k1) ≤ v2
+
+theorem clampFree_of_mono (m : Srcmap) (hv : MonoMap m) (pos : Nat) : ClampFree m pos := by
+  intro i k1 v1 k2 v2 h1 h2 a b
+  have := hv i k1 v1 k2 v2 h1 h2
+  omega
+
+theorem clampFree_of_real (m : Srcmap) (hv : MonoMapV m) (pos : Nat) (hreal : NotInsideVirtual m pos) :
+    ClampFree m pos := by
+  intro i k1 v1 k2 v2 h1 h2 a b
+  rcases hreal i k1 v1 k2 v2 h1 h2 a b with h | h
+  · omega
+  · have := hv i k1 v1 k2 v2 h1 h2
+    omega
+
+/-- **C05 / the bridge between the repaired function and the affine one.**  Wherever the clamp is
+    inactive, `get_source_pos_for` is the affine function of the pre-`fix:` code. -/
+theorem getSourcePosFor_eq_raw_at (m : Srcmap) (hm : WFMap m) (pos : Nat) (hc : ClampFree m pos) :
+    getSourcePosFor m pos = getSourcePosForRaw m pos := by
+  obtain ⟨i, k, v, h1, h2, h3, h4⟩ := lineOf_spec m hm pos
+  rw [getSourcePosForRaw_of_line m pos i k v h1 h2 h3]
+  apply getSourcePosFor_of_line m pos i k v h1 h2 h3
+  intro k' v' hn
+  exact hc i k v k' v' h2 hn h3 (h4 (i + 1) k' v' (by omega) hn)
+
+/-- on a table without virtual-space entries the clamp is a no-op -/
+theorem getSourcePosFor_eq_raw (m : Srcmap) (hm : WFMap m) (hv : MonoMap m) (pos : Nat) :
+    getSourcePosFor m pos = getSourcePosForRaw m pos :=
+  getSourcePosFor_eq_raw_at m hm pos (clampFree_of_mono m hv pos)
+
+/-- the repaired function never answers more than the affine one -/
+theorem getSourcePosFor_le_raw (m : Srcmap) (pos x y : Nat) (hx : getSourcePosFor m pos = .ok x)
+    (hy : getSourcePosForRaw m pos = .ok y) : x ≤ y := by
+  unfold getSourcePosFor at hx
+  unfold getSourcePosForRaw at hy
+  split at hx
+  · simp at hx
+  · next line hl =>
+    rw [hl] at hy
+    simp only at hy
+    split at hx
+    · simp at hx
+    · next k v hkv =>
+      rw [hkv] at hy
+      simp only at hy
+      split at hx
+      · simp at hx
+      · next hnk =>
+        rw [if_neg hnk] at hy
+        simp only [Except.ok.injEq] at hy
+        split at hx <;> simp only [Except.ok.injEq] at hx <;> omega
+
+/-- `lineOf_spec` together with the value of the translation, for the callers that know the clamp is
+    inactive -/
+theorem lineOf_spec_tr (m : Srcmap) (hm : WFMap m) (pos : Nat) (hc : ClampFree m pos) :
+    ∃ i k v, lineOf m pos = .ok i ∧ m[i]? = some (k, v) ∧ k ≤ pos ∧
+      (∀ j k' v', i < j → m[j]? = some (k', v') → pos < k') ∧
+      getSourcePosFor m pos = .ok (v + (pos - k)) := by
+  obtain ⟨i, k, v, h1, h2, h3, h4⟩ := lineOf_spec m hm pos
+  refine ⟨i, k, v, h1, h2, h3, h4, getSourcePosFor_of_line m pos i k v h1 h2 h3 ?_⟩
+  intro k' v' hn
+  exact hc i k v k' v' h2 hn h3 (h4 (i + 1) k' v' (by omega) hn)
+
+/-- **C05 / translate_segment.**  The answer is determined by the entry `(k, v)` whose segment
+    `[k, next key)` contains `pos` and the source offset `v'` of the next entry:
+    `clampNext m i (v + (pos − k))` = `min (v + (pos − k)) v'` (just `v + (pos − k)` in the last
+    segment).  Unconditional on `WFMap`, as before the `fix:`; the value is no longer always affine. -/
+theorem translate_segment (m : Srcmap) (hm : WFMap m) (pos i k v : Nat) (hi : m[i]? = some (k, v))
+    (hk : k ≤ pos) (hnext : ∀ k' v', m[i + 1]? = some (k', v') → pos < k') :
+    getSourcePosFor m pos = .ok (clampNext m i (v + (pos - k))) :=
+  getSourcePosFor_of_line_clamp m pos i k v (lineOf_segment m hm pos i k v hi hk hnext) hi hk
+
+/-- … hence the affine value `v + (pos − k)` of the pre-`fix:` code whenever that does not pass the next
+    entry's source offset (always, when the table has no virtual-space entries:
+    `translate_segment_mono`) -/
+theorem translate_segment_free (m : Srcmap) (hm : WFMap m) (pos i k v : Nat) (hi : m[i]? = some (k, v))
+    (hk : k ≤ pos) (hnext : ∀ k' v', m[i + 1]? = some (k', v') → pos < k')
+    (hcl : ∀ k' v', m[i + 1]? = some (k', v') → v + (pos - k) ≤ v') :
+    getSourcePosFor m pos = .ok (v + (pos - k)) :=
+  getSourcePosFor_of_line m pos i k v (lineOf_segment m hm pos i k v hi hk hnext) hi hk hcl
+
+theorem translate_segment_mono (m : Srcmap) (hm : WFMap m) (hv : MonoMap m) (pos i k v : Nat)
+    (hi : m[i]? = some (k, v)) (hk : k ≤ pos)
+    (hnext : ∀ k' v', m[i + 1]? = some (k', v') → pos < k') :
+    getSourcePosFor m pos = .ok (v + (pos - k)) := by
+  apply translate_segment_free m hm pos i k v hi hk hnext
+  intro k' v' hn
+  have := hv i k v k' v' hi hn
+  have := hnext k' v' hn
+  omega
+
+theorem translateRaw_segment (m : Srcmap) (hm : WFMap m) (pos i k v : Nat) (hi : m[i]? = some (k, v))
+    (hk : k ≤ pos) (hnext : ∀ k' v', m[i + 1]? = some (k', v') → pos < k') :
+    getSourcePosForRaw m pos = .ok (v + (pos - k)) :=
+  getSourcePosForRaw_of_line m pos i k v (lineOf_segment m hm pos i k v hi hk hnext) hi hk
+
+/-- **C05 / translate_affine.**  Inside one line (between two consecutive keys, or after the last key)
+    the translation is a shift: `tr (k + d) = v + d` — as long as `v + d` does not pass the source offset
+    of the next entry (it never does on a table without virtual-space entries: `translate_affine_mono`;
+    in a virtual segment only `d = 0` qualifies). -/
+theorem translate_affine (m : Srcmap) (hm : WFMap m) (i k v d : Nat) (hi : m[i]? = some (k, v))
+    (hnext : ∀ k' v', m[i + 1]? = some (k', v') → k + d < k')
+    (hcl : ∀ k' v', m[i + 1]? = some (k', v') → v + d ≤ v') :
+    getSourcePosFor m (k + d) = .ok (v + d) := by
+  have := translate_segment_free m hm (k + d) i k v hi (by omega) hnext (by
+    intro k' v' hn; have := hcl k' v' hn; omega)
+  rw [this]
+  congr 2; omega
+
+theorem translate_affine_mono (m : Srcmap) (hm : WFMap m) (hv : MonoMap m) (i k v d : Nat)
+    (hi : m[i]? = some (k, v)) (hnext : ∀ k' v', m[i + 1]? = some (k', v') → k + d < k') :
+    getSourcePosFor m (k + d) = .ok (v + d) := by
+  apply translate_affine m hm i k v d hi hnext
+  intro k' v' hn
+  have := hv i k v k' v' hi hn
+  have := hnext k' v' hn
+  omega
 
 theorem getElem?_some_of_lt (m : Srcmap) (i j : Nat) (x : Nat × Nat) (h : m[j]? = some x)
     (hij : i ≤ j) : ∃ y, m[i]? = some y := by
@@ -170,15 +340,76 @@ theorem values_mono (m : Srcmap) (hv : MonoMapV m) (i n : Nat) (k1 v1 k2 v2 : Na
     have b := hv (i + n) k3 v3 k2 v2 h3 h2
     omega
 
-/-- **C05 / translate_mono (tables with virtual-space entries).**  The translation is monotone from
-    every position that is not strictly inside the virtual spaces of a split tab. -/
-theorem translate_mono_virtual (m : Srcmap) (hm : WFMap m) (hv : MonoMapV m) (pos pos' : Nat)
-    (hreal : NotInsideVirtual m pos) (hle : pos ≤ pos') (x x' : Nat)
+/-- **C05 / translate_le_next.**  A position of the segment of entry `i` is never translated past the
+    source offset of entry `i + 1` — in particular the virtual spaces of a split tab all map to the
+    tab's own byte. -/
+theorem translate_le_next (m : Srcmap) (hm : WFMap m) (pos i k v k' v' x : Nat)
+    (hi : m[i]? = some (k, v)) (hk : k ≤ pos) (hn : m[i + 1]? = some (k', v')) (hlt : pos < k')
+    (hx : getSourcePosFor m pos = .ok x) : x ≤ v' := by
+  rw [translate_segment m hm pos i k v hi hk (by
+    intro k2 v2 h2; rw [hn] at h2; simp only [Option.some.injEq, Prod.mk.injEq] at h2; omega)] at hx
+  simp only [Except.ok.injEq] at hx
+  subst hx
+  exact clampNext_le_next m i _ k' v' hn
+
+/-- the translation of a position is at or after the source offset of its own entry -/
+theorem translate_ge_entry (m : Srcmap) (hv : MonoMapV m) (pos i k v x : Nat)
+    (h1 : lineOf m pos = .ok i) (h2 : m[i]? = some (k, v)) (h3 : k ≤ pos)
+    (hx : getSourcePosFor m pos = .ok x) : v ≤ x := by
+  rw [getSourcePosFor_of_line_clamp m pos i k v h1 h2 h3] at hx
+  simp only [Except.ok.injEq] at hx
+  subst hx
+  apply clampNext_ge _ _ _ _ (by omega)
+  intro k' v' hn
+  have := hv i k v k' v' h2 hn
+  omega
+
+/-- **C05 / translate_mono_all.**  With the clamp the translation is monotone on EVERY table `get_lines`
+    makes, the positions strictly inside the virtual spaces of a split tab included:
+    `pos ≤ pos' → tr pos ≤ tr pos'`. -/
+theorem translate_mono_all (m : Srcmap) (hm : WFMap m) (hv : MonoMapV m) (pos pos' : Nat)
+    (hle : pos ≤ pos') (x x' : Nat)
     (hx : getSourcePosFor m pos = .ok x) (hx' : getSourcePosFor m pos' = .ok x') : x ≤ x' := by
   obtain ⟨i, k, v, h1, h2, h3, h4⟩ := lineOf_spec m hm pos
   obtain ⟨i', k', v', h1', h2', h3', h4'⟩ := lineOf_spec m hm pos'
-  rw [getSourcePosFor_of_line m pos i k v h1 h2 h3] at hx
-  rw [getSourcePosFor_of_line m pos' i' k' v' h1' h2' h3'] at hx'
+  have hge := translate_ge_entry m hv pos' i' k' v' x' h1' h2' h3' hx'
+  rw [getSourcePosFor_of_line_clamp m pos i k v h1 h2 h3] at hx
+  rw [getSourcePosFor_of_line_clamp m pos' i' k' v' h1' h2' h3'] at hx'
+  simp only [Except.ok.injEq] at hx hx'
+  subst hx hx'
+  rcases Nat.lt_trichotomy i i' with hlt | heq | hgt
+  · -- a later line: go through the entry right after `pos`'s own
+    obtain ⟨⟨k2, v2⟩, hn⟩ := getElem?_some_of_lt m (i + 1) i' _ h2' (by omega)
+    have step := clampNext_le_next m i (v + (pos - k)) k2 v2 hn
+    obtain ⟨n, hn'⟩ : ∃ n, i' = i + 1 + n := ⟨i' - (i + 1), by omega⟩
+    subst hn'
+    have := values_mono m hv (i + 1) n k2 v2 k' v' hn h2'
+    omega
+  · subst heq
+    rw [h2] at h2'
+    simp only [Option.some.injEq, Prod.mk.injEq] at h2'
+    obtain ⟨rfl, rfl⟩ := h2'
+    exact clampNext_mono m i _ _ (by omega)
+  · have := h4' i k v hgt h2
+    omega
+
+/-- **C05 / translate_mono (tables with virtual-space entries).**  Special case of
+    `translate_mono_all`, kept under its name: before the `fix:` monotonicity held only from positions
+    that are not strictly inside the virtual spaces of a split tab (`translateRaw_mono_virtual`). -/
+theorem translate_mono_virtual (m : Srcmap) (hm : WFMap m) (hv : MonoMapV m) (pos pos' : Nat)
+    (_hreal : NotInsideVirtual m pos) (hle : pos ≤ pos') (x x' : Nat)
+    (hx : getSourcePosFor m pos = .ok x) (hx' : getSourcePosFor m pos' = .ok x') : x ≤ x' :=
+  translate_mono_all m hm hv pos pos' hle x x' hx hx'
+
+/-- the pre-`fix:` function: monotone from every position that is not strictly inside the virtual
+    spaces of a split tab -/
+theorem translateRaw_mono_virtual (m : Srcmap) (hm : WFMap m) (hv : MonoMapV m) (pos pos' : Nat)
+    (hreal : NotInsideVirtual m pos) (hle : pos ≤ pos') (x x' : Nat)
+    (hx : getSourcePosForRaw m pos = .ok x) (hx' : getSourcePosForRaw m pos' = .ok x') : x ≤ x' := by
+  obtain ⟨i, k, v, h1, h2, h3, h4⟩ := lineOf_spec m hm pos
+  obtain ⟨i', k', v', h1', h2', h3', h4'⟩ := lineOf_spec m hm pos'
+  rw [getSourcePosForRaw_of_line m pos i k v h1 h2 h3] at hx
+  rw [getSourcePosForRaw_of_line m pos' i' k' v' h1' h2' h3'] at hx'
   simp only [Except.ok.injEq] at hx hx'
   subst hx hx'
   rcases Nat.lt_trichotomy i i' with hlt | heq | hgt
@@ -207,8 +438,7 @@ theorem translate_mono_virtual (m : Srcmap) (hm : WFMap m) (hv : MonoMapV m) (po
 theorem translate_mono (m : Srcmap) (hm : WFMap m) (hv : MonoMap m) (pos pos' : Nat)
     (hle : pos ≤ pos') (x x' : Nat)
     (hx : getSourcePosFor m pos = .ok x) (hx' : getSourcePosFor m pos' = .ok x') : x ≤ x' :=
-  translate_mono_virtual m hm (fun i k1 v1 k2 v2 a b => Or.inl (hv i k1 v1 k2 v2 a b)) pos pos'
-    (fun i k1 v1 k2 v2 a b _ _ => Or.inl (hv i k1 v1 k2 v2 a b)) hle x x' hx hx'
+  translate_mono_all m hm hv.toV pos pos' hle x x' hx hx'
 
 /-- the table `get_lines` makes for `"a\n \tb"` cut at indent 2 (second line: one real space, then a tab
     of which 2 columns remain → 2 virtual spaces): keys 0 / 2 / 4, the last two entries with the same
@@ -224,12 +454,30 @@ theorem exMap_monoV : MonoMapV exMap := by
   | 1 => simp [exMap] at h1 h2; omega
   | n + 2 => simp [exMap] at h2
 
-/-- non-vacuity of `translate_total` / `translate_affine` / `translate_mono_virtual` -/
+/-- non-vacuity of `translate_total` / `translate_affine` / `translate_mono_all`: both virtual spaces
+    (positions 2 and 3) translate to the tab's byte, offset 3; the result is non-decreasing -/
 example : (List.range 8).map (getSourcePosFor exMap) =
+    [.ok 0, .ok 1, .ok 3, .ok 3, .ok 3, .ok 4, .ok 5, .ok 6] := by decide +kernel
+
+/-- the pre-`fix:` function on the same table: position 3 runs ahead -/
+example : (List.range 8).map (getSourcePosForRaw exMap) =
     [.ok 0, .ok 1, .ok 3, .ok 4, .ok 3, .ok 4, .ok 5, .ok 6] := by decide +kernel
 
 example : getSourcePosFor exMap (4 + 2) = .ok (3 + 2) :=
   translate_affine exMap exMap_wf 2 4 3 2 (by decide +kernel) (by intro k' v' h; simp [exMap] at h)
+    (by intro k' v' h; simp [exMap] at h)
+
+/-- `translate_segment` inside the virtual segment: the affine value `3 + (3 − 2) = 4`, cut at the
+    next entry's source offset 3 -/
+example : getSourcePosFor exMap 3 = .ok (clampNext exMap 1 (3 + (3 - 2))) ∧
+    clampNext exMap 1 (3 + (3 - 2)) = 3 :=
+  ⟨translate_segment exMap exMap_wf 3 1 2 3 (by decide +kernel) (by omega)
+    (by intro k' v' h; simp [exMap] at h; omega), by decide +kernel⟩
+
+/-- `translate_le_next` inside the virtual segment -/
+example : ∀ x, getSourcePosFor exMap 3 = .ok x → x ≤ 3 := fun x hx =>
+  translate_le_next exMap exMap_wf 3 1 2 3 4 3 x (by decide +kernel) (by omega) (by decide +kernel)
+    (by omega) hx
 
 example : NotInsideVirtual exMap 2 ∧ NotInsideVirtual exMap 4 ∧ NotInsideVirtual exMap 1 := by
   refine ⟨?_, ?_, ?_⟩ <;> intro i k1 v1 k2 v2 h1 h2 a b <;>
@@ -246,14 +494,16 @@ example : WFMap [(0, 5), (4, 12), (9, 30)] ∧ MonoMap [(0, 5), (4, 12), (9, 30)
   | 1 => simp at h1 h2; omega
   | n + 2 => simp at h2
 
-/-- The restriction in `translate_mono_virtual` is needed: strictly inside the virtual spaces the
-    translation runs ahead of the segment start (position 3 is the second virtual space; it is
-    translated to source offset 4, the byte AFTER the one position 4 — the first real byte — maps to).
-    Well-formed `get_lines` table, `3 ≤ 4`, but `tr 3 = 4 > 3 = tr 4`. -/
-theorem translate_not_mono_inside_virtual :
+/-- The defect the `fix:` repairs, as a statement about the PRE-fix function `getSourcePosForRaw`:
+    strictly inside the virtual spaces the affine translation runs ahead of the segment start
+    (position 3 is the second virtual space; it was translated to source offset 4, the byte AFTER the
+    one position 4 — the first real byte — maps to).  Well-formed `get_lines` table, `3 ≤ 4`, but
+    `raw 3 = 4 > 3 = raw 4`; the repaired function answers 3 for both (`translate_mono_all`). -/
+theorem translateRaw_not_mono_inside_virtual :
     WFMap exMap ∧ MonoMapV exMap ∧
-      getSourcePosFor exMap 3 = .ok 4 ∧ getSourcePosFor exMap 4 = .ok 3 :=
-  ⟨exMap_wf, exMap_monoV, by decide +kernel, by decide +kernel⟩
+      getSourcePosForRaw exMap 3 = .ok 4 ∧ getSourcePosForRaw exMap 4 = .ok 3 ∧
+      getSourcePosFor exMap 3 = .ok 3 ∧ getSourcePosFor exMap 4 = .ok 3 :=
+  ⟨exMap_wf, exMap_monoV, by decide +kernel, by decide +kernel, by decide +kernel, by decide +kernel⟩
 
 /-! ## strings -/
 
